@@ -60,6 +60,11 @@ class Source:
                 for m in n.body:
                     if isinstance(m, ast.FunctionDef):
                         self.defs[f'{n.name}.{m.name}'] = m
+        for outer, fn in list(self.defs.items()):
+            # functions defined directly in the body of a function / method: 'outer.inner' (closure-free ones translate)
+            for m in fn.body:
+                if isinstance(m, ast.FunctionDef):
+                    self.defs.setdefault(f'{outer}.{m.name}', m)
 
     def get(self, qual):
         if qual not in self.defs:
@@ -126,6 +131,8 @@ def lean_type(t):
         return ' × '.join([_paren(lean_type(et))] * n)
     if t in LEAN_TYPE:
         return LEAN_TYPE[t]
+    if t.startswith('Pair '):
+        return ' × '.join([_paren(lean_type(t[5:]))] * 2)
     return t
 
 
@@ -241,6 +248,7 @@ class FnTr:
         self.on_fall = None      # inside a loop body: what "falling off the end" means (next iteration)
         self.aux = []            # auxiliary recursive definitions (loops), emitted before the function
         self.fields = {}         # __init__: attribute -> Val
+        self.localfns = {}       # name of a function defined in this body -> its qualified name ('outer.inner')
         for n, t in inst.params:
             self.env[n] = Val(lname(n), t, path=n)
         if fn.args.kwarg is not None:
@@ -271,6 +279,7 @@ class FnTr:
         c.pending = []
         c.on_fall = self.on_fall
         c.aux = self.aux         # shared: loops met in any branch are emitted once, before the function
+        c.localfns = dict(getattr(self, 'localfns', {}))
         return c
 
     def wrap(self, text):
@@ -325,6 +334,14 @@ class FnTr:
             raise Unsupported(f'`{self.inst.qual}`: control can fall off the end (returns None)')
         s, rest = stmts[0], stmts[1:]
         if isinstance(s, (ast.Pass, ast.Import, ast.ImportFrom)):
+            return self.block(rest)
+        if isinstance(s, ast.FunctionDef) and not s.decorator_list and f'{self.inst.qual}.{s.name}' in self.u.src.defs \
+                and self.u.src.defs[f'{self.inst.qual}.{s.name}'] is s:
+            # a local function: translated as its own instance(s) 'outer.inner'; here only the name is bound
+            if not hasattr(self, 'localfns'):
+                self.localfns = {}
+            self.localfns[s.name] = f'{self.inst.qual}.{s.name}'
+            self.env.pop(s.name, None)
             return self.block(rest)
         if isinstance(s, ast.Expr):
             if isinstance(s.value, ast.Constant):
@@ -543,6 +560,14 @@ class FnTr:
                     if not isinstance(t, ast.Name):
                         raise Unsupported(f'`{self.inst.qual}`: unpacking into `{ast.unparse(t)}`')
                     self.env[t.id] = Val(f'{tmp}.{i + 1}', parts[i], path=t.id)
+                    self.narrow.pop(t.id, None)
+                return self.wrap(f'let {tmp} := {v.text}\n' + self.block(rest))
+            if v.typ.startswith('Pair ') and n == 2:
+                tmp = self.gensym('t')
+                for i, t in enumerate(tgt.elts):
+                    if not isinstance(t, ast.Name):
+                        raise Unsupported(f'`{self.inst.qual}`: unpacking into `{ast.unparse(t)}`')
+                    self.env[t.id] = Val(f'{tmp}.{i + 1}', v.typ[5:], path=t.id)
                     self.narrow.pop(t.id, None)
                 return self.wrap(f'let {tmp} := {v.text}\n' + self.block(rest))
             if not (v.typ.startswith('Tuple') and v.typ.split()[0] == f'Tuple{n}'):
@@ -832,6 +857,8 @@ class FnTr:
                 return Val('true' if e.value else 'false', 'Bool')
             if isinstance(e.value, int):
                 return Val(f'({e.value} : Int)', 'Int')
+            if isinstance(e.value, str) and 'str_const' in self.u.hooks:
+                return Val(chars_literal(e.value), 'Chars')          # a str is the list of its characters
             if isinstance(e.value, float) and e.value == int(e.value) and 'float_as_int' in self.u.hooks:
                 return Val(f'({int(e.value)} : Int)', 'Int')      # 1.0, 2.0 next to the numeric class: the same number
             raise Unsupported(f'constant {e.value!r}')
@@ -839,6 +866,8 @@ class FnTr:
             return self.attribute(e)
         if isinstance(e, ast.Compare):
             return self.compare(e)
+        if isinstance(e, ast.JoinedStr) and 'str_const' in self.u.hooks:
+            return self.fstring(e)
         if isinstance(e, ast.BoolOp):
             # operands decided by the static types of this instance: `True and X` is `X`, `False and X` is `False` (X not evaluated)
             keep, decided = [], None
@@ -918,6 +947,9 @@ class FnTr:
                 if isinstance(e.op, ast.Div):
                     return Val(f'({a.text} / {b.text})', 'N')
                 return Val(f'(GV.Sphere.pymod {a.text} {b.text})', 'N')      # Python's float `%`
+            if a.typ == b.typ == 'R' and isinstance(e.op, ast.Div) and isinstance(e.right, ast.Constant) \
+                    and isinstance(e.right.value, int) and not isinstance(e.right.value, bool) and e.right.value != 0:
+                return Val(f'({a.text} / {b.text})', 'R')           # float division by a non-zero literal (cannot raise)
             raise Unsupported(f'`{ast.unparse(e)[:60]}`: {a.typ} {type(e.op).__name__} {b.typ}')
         if isinstance(e, ast.BinOp) and isinstance(e.op, (ast.Add, ast.Sub, ast.Mult)):
             a, b = self.expr(e.left), self.expr(e.right)
@@ -927,16 +959,39 @@ class FnTr:
                 return Val(f'({a.text} {sym} {b.text})', a.typ)
             if sym == '+' and a.typ == b.typ and a.typ.startswith('List '):
                 return Val(f'({a.text} ++ {b.text})', a.typ)
+            if sym == '+' and a.typ == b.typ == 'Chars':
+                return Val(f'({a.text} ++ {b.text})', 'Chars')
+            if sym == '*' and {a.typ, b.typ} == {'Chars', 'Int'}:
+                s_, n_ = (a, b) if a.typ == 'Chars' else (b, a)
+                return Val(f'(GV.PyStr.rep {s_.text} {n_.text})', 'Chars')      # `s * n` (empty for n <= 0)
             table = {('Dt', '+', 'Td'): 'Dt', ('Dt', '-', 'Td'): 'Dt', ('Dt', '-', 'Dt'): 'Td', ('Td', '+', 'Td'): 'Td',
                      ('Td', '-', 'Td'): 'Td', ('Int', '+', 'Int'): 'Int', ('Int', '-', 'Int'): 'Int', ('Td', '+', 'Dt'): 'Dt'}
             t = table.get((a.typ, sym, b.typ))
             if t is None:
                 raise Unsupported(f'`{ast.unparse(e)}`: {a.typ} {sym} {b.typ}')
             return Val(f'({a.text} {sym} {b.text})', t)
+        if isinstance(e, ast.Tuple) and any(isinstance(v, ast.Starred) for v in e.elts) and 'tuples' in self.u.hooks:
+            # `(*t, x)`: the components of `t` (bound once), then `x`
+            lets, vals = [], []
+            for el in e.elts:
+                if isinstance(el, ast.Starred):
+                    v = self.expr(el.value)
+                    tmp = self.gensym('t')
+                    lets.append(f'let {tmp} := {v.text}; ')
+                    vals += self.components(Val(tmp, v.typ))
+                else:
+                    vals.append(self.expr(el))
+            if len(vals) < 2:
+                raise Unsupported(f'tuple `{ast.unparse(e)}`')
+            typ = 'Pair ' + vals[0].typ if len(vals) == 2 and vals[0].typ == vals[1].typ else \
+                'Prod ' + ' '.join(_paren(v.typ) for v in vals)
+            return Val('(' + ''.join(lets) + '(' + ', '.join(v.text for v in vals) + '))', typ)
         if isinstance(e, ast.Tuple):
             vals = [self.expr(v) for v in e.elts]
             if len(vals) == 2 and vals[0].typ == vals[1].typ:
                 return Val(f'({vals[0].text}, {vals[1].text})', 'Pair ' + vals[0].typ)
+            if len(vals) >= 2 and 'tuples' in self.u.hooks:
+                return Val('(' + ', '.join(v.text for v in vals) + ')', 'Prod ' + ' '.join(_paren(v.typ) for v in vals))
             raise Unsupported(f'tuple `{ast.unparse(e)}`')
         if isinstance(e, ast.List) and not e.elts:
             return Val('[]', 'List ?')
@@ -966,6 +1021,12 @@ class FnTr:
                 r = Val(f'(match GV.Coll.assocGet {v.text} {k.text} with | some v => Except.ok v | none => Except.error "ERR:Key")', 'PVal')
                 r.raises = True                       # KeyError
                 return r
+            if v.typ.startswith('Prod ') and len(_prod_parts(v.typ)) > 2 and isinstance(e.slice, ast.Constant) \
+                    and isinstance(e.slice.value, int) and not isinstance(e.slice.value, bool) \
+                    and 0 <= e.slice.value < len(_prod_parts(v.typ)):
+                return self.components(v)[e.slice.value]            # `t[i]` of a wider tuple (right-nested pairs)
+            if v.typ == 'Chars':
+                return self.chars_subscript(v, e)
             if v.typ.startswith('Prod ') and isinstance(e.slice, ast.Constant) and e.slice.value in (0, 1):
                 parts = _prod_parts(v.typ)
                 return Val(f'{v.text}.{e.slice.value + 1}', parts[e.slice.value])
@@ -1005,7 +1066,8 @@ class FnTr:
 
     def compare(self, e):
         operands = [e.left] + list(e.comparators)
-        vals = [self.expr(x) for x in operands]
+        vals = [self.literal_seq(x) if i > 0 and isinstance(e.ops[i - 1], (ast.In, ast.NotIn)) and isinstance(x, (ast.Tuple, ast.List))
+                and x.elts and 'tuples' in self.u.hooks else self.expr(x) for i, x in enumerate(operands)]
         parts = []
         for (a, op, b) in zip(vals, e.ops, vals[1:]):
             parts.append(self.compare2(a, op, b))
@@ -1098,6 +1160,12 @@ class FnTr:
         if isinstance(f, ast.Call) and isinstance(f.func, ast.Name) and f.func.id == 'type' and len(f.args) == 1 \
                 and 'type_ctor' in self.u.hooks:
             return self.u.hooks['type_ctor'](self, self.expr(f.args[0]), [self.expr(a) for a in e.args])
+        if isinstance(f, ast.Name) and f.id in getattr(self, 'localfns', {}) and f.id not in self.env:
+            args = self.call_args(e.args)
+            inst = self.u.find(self.localfns[f.id], tuple(a.typ for a in args))
+            return self.apply(inst, args)
+        if isinstance(f, ast.Name) and f.id in self.u.intrinsics and f.id in self.u.hooks.get('intrinsics_first', ()):
+            return self.u.intrinsics[f.id](self, self.call_args(e.args))
         if isinstance(f, ast.Name):
             if f.id in ('min', 'max') and len(e.args) == 2:
                 a, b = self.expr(e.args[0]), self.expr(e.args[1])
@@ -1184,6 +1252,80 @@ class FnTr:
             raise Unsupported(f'`{self.inst.qual}`: method `.{f.attr}` of {recv.typ} at {tuple(a.typ for a in args)}')
         raise Unsupported(f'`{self.inst.qual}`: call `{ast.unparse(e)[:80]}`')
 
+    def components(self, v):
+        """the components of a tuple value `Prod A B C …` (Lean: right-nested pairs) or `Pair A`"""
+        if v.typ.startswith('Pair '):
+            return [Val(f'{v.text}.1', v.typ[5:]), Val(f'{v.text}.2', v.typ[5:])]
+        parts = _prod_parts(v.typ)
+        if not v.typ.startswith('Prod ') or len(parts) < 2:
+            raise Unsupported(f'`*` / components of {v.typ}')
+        n = len(parts)
+        return [Val(f'{v.text}' + '.2' * i + ('.1' if i < n - 1 else ''), t) for i, t in enumerate(parts)]
+
+    def call_args(self, args):
+        """positional arguments, `*t` of a tuple value spread into its components"""
+        out = []
+        for a in args:
+            if isinstance(a, ast.Starred):
+                out += self.components(self.expr(a.value))
+            else:
+                out.append(self.expr(a))
+        return out
+
+    def literal_seq(self, x):
+        """the right operand of `in` / `not in` written as a tuple / list display: the list of its elements"""
+        vals = [self.expr(el) for el in x.elts]
+        if any(v.typ != vals[0].typ for v in vals):
+            raise Unsupported(f'`in` over a display of mixed types: `{ast.unparse(x)}`')
+        return Val('[' + ', '.join(v.text for v in vals) + ']', 'List ' + vals[0].typ)
+
+    def chars_subscript(self, v, e):
+        """`s[i]` (IndexError past the end), `s[a:b]`, `s[a:]`, `s[:b]` of a str, for literal non-negative bounds"""
+        sl = e.slice
+
+        def lit(x):
+            return isinstance(x, ast.Constant) and isinstance(x.value, int) and not isinstance(x.value, bool) and x.value >= 0
+        if lit(sl):
+            r = Val(f'(GV.PyStr.charAt {_paren(v.text)} {sl.value})', 'Chars')
+            r.raises = True
+            return r
+        if isinstance(sl, ast.Slice) and sl.step is None and (sl.lower is None or lit(sl.lower)) and (sl.upper is None or lit(sl.upper)):
+            lo = sl.lower.value if sl.lower is not None else 0
+            t = v.text if lo == 0 else f'(({v.text}).drop {lo})'
+            if sl.upper is not None:
+                t = f'(({t}).take {max(sl.upper.value - lo, 0)})'
+            return Val(t, 'Chars')
+        raise Unsupported(f'`{self.inst.qual}`: subscript `{ast.unparse(e)}` of a str')
+
+    def fstring(self, e):
+        """f'…{x}…{y:.2f}…': the concatenation of the pieces; a format spec is an intrinsic `format:<spec>` of the unit"""
+        parts = []
+        for p in e.values:
+            if isinstance(p, ast.Constant) and isinstance(p.value, str):
+                parts.append(chars_literal(p.value))
+                continue
+            if not isinstance(p, ast.FormattedValue) or p.conversion != -1:
+                raise Unsupported(f'`{self.inst.qual}`: f-string piece `{ast.unparse(p)[:60]}`')
+            v = self.expr(p.value)
+            if p.format_spec is None:
+                if v.typ == 'Chars':
+                    parts.append(v.text)
+                elif 'str' in self.u.intrinsics:
+                    parts.append(self.u.intrinsics['str'](self, [v]).text)
+                else:
+                    raise Unsupported(f'f-string piece of type {v.typ}')
+                continue
+            spec = p.format_spec
+            if not (isinstance(spec, ast.JoinedStr) and len(spec.values) == 1 and isinstance(spec.values[0], ast.Constant)):
+                raise Unsupported(f'`{self.inst.qual}`: computed format spec in `{ast.unparse(e)[:60]}`')
+            key = 'format:' + spec.values[0].value
+            if key not in self.u.intrinsics:
+                raise Unsupported(f'`{self.inst.qual}`: format spec `{spec.values[0].value}`')
+            parts.append(self.u.intrinsics[key](self, [v]).text)
+        if not parts:
+            return Val('([] : List Char)', 'Chars')
+        return Val(parts[0] if len(parts) == 1 else '(' + ' ++ '.join(parts) + ')', 'Chars')
+
     def apply_ctor(self, inst, args):
         ctx = [n for n, _t in self.u.ctx_params] if inst in self.u.insts else []
         txt = ' '.join([inst.lean] + ctx + [_paren(a.text) for a in args])
@@ -1257,6 +1399,13 @@ class FnTr:
             return v
         self.fresh = inner.fresh
         return Val(f'(({xs.text}).{which} (fun {x} => {c}))', 'Bool')
+
+
+def chars_literal(s):
+    """a Python str constant as a Lean `List Char` literal"""
+    def ch(c):
+        return f"'{c}'" if (c.isascii() and c.isprintable() and c not in "'\\") else f'(Char.ofNat {ord(c)})'
+    return '([' + ', '.join(ch(c) for c in s) + '] : List Char)'
 
 
 def _prod_parts(t):
